@@ -63,6 +63,30 @@ theorem lt_of_cellGet_ok (g : Cells) (cs ls : Nat) (hs : Shape g cs ls) (i j : I
     rw [if_neg (by rw [hrow]; exact hc)] at h3
     cases h3
 
+/-- reading a column at or beyond `len(grid)` is an IndexError -/
+theorem cellGet_err_col (g : Cells) (i j : Int) (hi : (g.length : Int) ≤ i) : cellGet g i j = .error .index := by
+  have h1 : pyIdx g.length i = none := by
+    unfold pyIdx
+    rw [if_pos (by omega), if_neg (by omega)]
+  unfold cellGet
+  simp only [h1]
+
+/-- reading a row at or beyond `lsize` is an IndexError -/
+theorem cellGet_err_row (g : Cells) (cs ls : Nat) (hs : Shape g cs ls) (i j : Int) (hj : (ls : Int) ≤ j) :
+    cellGet g i j = .error .index := by
+  unfold cellGet
+  cases h1 : pyIdx g.length i with
+  | none => rfl
+  | some a =>
+    cases h2 : g[a]? with
+    | none => simp only [h2]
+    | some row =>
+      have hrow : row.length = ls := hs.2 row (List.mem_of_getElem? h2)
+      have h3 : pyIdx row.length j = none := by
+        unfold pyIdx
+        rw [if_pos (by omega), if_neg (by rw [hrow]; omega)]
+      simp only [h2, h3]
+
 theorem collectCells_ok (ix : Index α) (cells : List (Int × Int)) (tab : List Nat)
     (hs : Shape ix.grid ix.csize.toNat ix.lsize.toNat)
     (hc : ∀ cell ∈ cells, (0 ≤ cell.1 ∧ cell.1 < ix.csize) ∧ (0 ≤ cell.2 ∧ cell.2 < ix.lsize)) :
